@@ -212,6 +212,37 @@ func (c *Client) Login(login, pw string, name string, icon uint16) bool {
 	return true
 }
 
+// LoginCoalesced sends handshake and login transaction in ONE write (a client that does not wait for the
+// handshake answer), then waits for both answers.
+func (c *Client) LoginCoalesced(login, pw string, name string, icon uint16) bool {
+	if c.Conn == nil {
+		c.Connect()
+	}
+	fields := []rp.Field{
+		rp.F(rp.FUserLogin, rp.Obfuscate([]byte(login))),
+		rp.F(rp.FUserPassword, rp.Obfuscate([]byte(pw))),
+	}
+	if name != "" {
+		fields = append(fields, rp.FS(rp.FUserName, name), rp.F16(rp.FUserIconID, icon))
+	} else {
+		fields = append(fields, rp.F16(rp.FVersion, 190))
+	}
+	id := c.nextID
+	c.nextID++
+	t := rp.Tran{Type: rp.TLogin, ID: id, Fields: fields}
+	c.Sent[id] = rp.TLogin
+	if c.SendRaw(append(rp.Handshake(), t.Encode()...)) != nil {
+		return false
+	}
+	r, ok := c.Reply(id, defTimeout)
+	if !ok || r.Err != 0 || string(c.HSReply) != string(rp.HandshakeOK) {
+		return false
+	}
+	c.LoggedIn = true
+	c.WaitFor(func() bool { return c.find(rp.TUserAccess) != nil }, defTimeout)
+	return true
+}
+
 // Agree completes the 1.5+ login flow.
 func (c *Client) Agree(name string, icon uint16, options uint16, autoReply string) bool {
 	f := []rp.Field{rp.FS(rp.FUserName, name), rp.F16(rp.FUserIconID, icon), rp.F16(rp.FOptions, options)}
